@@ -9,6 +9,7 @@ package main
 // sleeping is needed and ages stay exact.
 
 import (
+	"context"
 	"encoding/json"
 	"runtime"
 	"sort"
@@ -74,6 +75,7 @@ type c18Step struct {
 	Cnts    []c18Cnt  `json:"cnts"`
 	Cnts2   []c18Cnt  `json:"cnts2"` // the second global-count schema (same limit, same acquires)
 	Other   int       `json:"other"` // instance entries on flow controls nobody acquires on
+	Pers    []c18Cond `json:"pers"`  // conditions persisted in the API
 }
 
 func c18Cluster(name string, amax, cmax int32) *proxyv1alpha1.UpstreamCluster {
@@ -107,7 +109,8 @@ func c18Cluster(name string, amax, cmax int32) *proxyv1alpha1.UpstreamCluster {
 func runC18(raw json.RawMessage) interface{} {
 	var c c18Case
 	must(json.Unmarshal(raw, &c))
-	rig := newLimRig("me", 1, "local")
+	// API-backed store in write-through mode: what the leader records is what the next leader loads
+	rig := newLimRigWith("me", 1, "k8s", 0)
 	rig.startLeading(0)
 	ups := []string{}
 	for _, u := range c.Ups {
@@ -144,6 +147,10 @@ func runC18(raw json.RawMessage) interface{} {
 			must(rig.rl.Heartbeat(i))
 		case "advance":
 			nowM += op.Dt
+		case "stoplead":
+			rig.stopLeading(0)
+		case "startlead":
+			rig.startLeading(0)
 		case "clustergone":
 			rig.delCluster(c18Cluster(u, c.Amax, c.Cmax))
 		case "clusterset":
@@ -222,6 +229,9 @@ func runC18(raw json.RawMessage) interface{} {
 			}
 			out, err := rig.rl.DoAcquire(u, acq)
 			st.Res = "acc"
+			if err != nil {
+				st.Res = classifyLimErr(err)
+			}
 			if err == nil && len(out.Status.Results) > 0 {
 				st.Acc = out.Status.Results[0].Accept
 			}
@@ -294,9 +304,36 @@ func runC18(raw json.RawMessage) interface{} {
 		sort.Slice(st.Sums, func(a, b int) bool { return st.Sums[a].U.S() < st.Sums[b].U.S() })
 		sort.Slice(st.SumC, func(a, b int) bool { return st.SumC[a].U.S() < st.SumC[b].U.S() })
 		sort.Strings(ups)
+		st.Pers = []c18Cond{}
+		plist, perr := rig.gwfake.ProxyV1alpha1().RateLimitConditions().List(context.Background(), metav1.ListOptions{})
+		must(perr)
+		for k := range plist.Items {
+			cd := &plist.Items[k]
+			if cd.Name == cd.Spec.UpstreamCluster+".state" && cd.Spec.Instance == "" {
+				continue
+			}
+			cc := c18Cond{U: toB(cd.Spec.UpstreamCluster), I: toB(cd.Spec.Instance), Q: -1}
+			for _, it := range cd.Spec.LimitItemConfigurations {
+				if it.Name == "alloc" && it.MaxRequestsInflight != nil {
+					cc.Q = it.MaxRequestsInflight.Max
+				}
+			}
+			lab, has := cd.Labels[limiter.RateLimitConditionInstanceLabel]
+			cc.Lab, cc.HasLab = toB(lab), has
+			st.Pers = append(st.Pers, cc)
+		}
+		sort.Slice(st.Pers, func(a, b int) bool {
+			if st.Pers[a].U.S() != st.Pers[b].U.S() {
+				return st.Pers[a].U.S() < st.Pers[b].U.S()
+			}
+			return st.Pers[a].I.S() < st.Pers[b].I.S()
+		})
 		st.Cnts, st.Cnts2 = []c18Cnt{}, []c18Cnt{}
 		store := rig.v.Stores()[0]
 		for _, un := range ups {
+			if store == nil {
+				break
+			}
 			for _, schema := range []string{"count", "count2", "alloc", "tb1", "tb2"} {
 				fc, err := store.GetFlowControl(un, schema)
 				if err != nil {
